@@ -2,9 +2,11 @@
 #include "hx.h"
 
 #include <errno.h>
+#include <fcntl.h>
 #include <signal.h>
 #include <stdio.h>
 #include <string.h>
+#include <sys/stat.h>
 #include <sys/wait.h>
 
 enum { E_CODE, E_SIG, E_LIBTERM, E_HANDLER, E_IGNORE, E_HUP_FIRST };
@@ -50,9 +52,10 @@ static void decode_hist(long idx, int *ops, int *n)
   for (int i = d - 1; i >= 0; i--) { ops[i] = (int) (idx % NOPS); idx /= NOPS; }
 }
 
+#define NTWOH 2
 static long c01_nconfigs(int tier)
 {
-  return (long) NENDINGS * 3 + (long) NREP * nhist(tier ? 4 : 3);
+  return (long) NENDINGS * 3 + (long) NREP * nhist(tier ? 4 : 3) + NTWOH;
 }
 
 enum { CL_STATUS_EXACT, CL_STATUS_STABLE, CL_NO_SYSCALL_AFTER, CL_REAPED_ONCE, CL_ENDED_IN_BLOCK, CL_FAULT_SURFACED, CL_HANG_OK, CL_TIMEOUT_SEEN };
@@ -112,11 +115,70 @@ static void c01_hang(const char *where)
   vk_violation("C01", "unexpected-hang", "h_c01", "blocked forever in %s (child state %d)", where, CH ? CH->state : -1);
 }
 
+/* two handles: the first was started with start-up input (its stdin end is closed by the library at once) and is then closed/destroyed while
+ * the second one's child still runs; the caller holds one descriptor of its own in between. Whatever the first handle does with descriptor
+ * numbers it no longer owns must not cost the second one its status. */
+static void c01_two_handles(int k)
+{
+  memset(&vk_cfg, 0, sizeof vk_cfg);
+  vk_cfg.sched_on = 1;
+  vk_cfg.sched_bound = 1;
+  vk_cfg.vlimit = 32;
+  vk_cfg.hello_lite = 1;
+  hx_desc("h_c01|two-handles|first=%s", k ? "close(in),destroy" : "destroy");
+  hx_begin();
+  vk_set_hang_hook(c01_hang);
+  first_status = -1;
+  static const uint8_t in[2] = { 'a', 'b' };
+  reproc_options oa, ob;
+  memset(&oa, 0, sizeof oa);
+  memset(&ob, 0, sizeof ob);
+  oa.input.data = in;
+  oa.input.size = 2;
+  ob.redirect.parent = true;
+  vk_script("R2 X1");
+  vk_script("X7");
+  reproc_t *a = hx_new();
+  vk_cfg.sched_on = 0;
+  int r = hx_start(a, hx_helper_argv(), oa);
+  if (r < 0) vk_finish(OUT_INFRA, "first start failed: %d", r);
+  int mine = open("callers-own", O_RDWR | O_CREAT, 0644);
+  P = hx_new();
+  r = hx_start(P, hx_helper_argv(), ob);
+  if (r < 0 || vk_nchildren != 2) vk_finish(OUT_INFRA, "second start failed: %d", r);
+  vk_cfg.sched_on = 1;
+  CH = &vk_children[1];
+  struct vk_child *ca = &vk_children[0];
+  /* the first child ends and its handle is given up */
+  for (int g = 0; g < 8 && ca->state == CH_RUNNING && vk_child_enabled(ca); g++) vk_child_step(ca);
+  int wa = hx_wait(a, REPROC_INFINITE);
+  if (wa != 1) vk_violation("C01", "status-exact", "h_c01|two-handles", "the first handle's wait returned %s, its child exits with 1", hx_errname(wa));
+  if (k) hx_close(a, REPROC_STREAM_IN);
+  hx_destroy(a);
+  /* the second child is still running: no status yet, and no blocking reap */
+  r = hx_wait(P, 0);
+  check_status_result("wait(0) on the second handle", r, hx_last_api);
+  if (vk_reap_blocked) vk_violation("C01", "reap-blocked", "h_c01|two-handles", "a blocking reap was attempted while the second child was still running");
+  for (int g = 0; g < 8 && CH->state == CH_RUNNING && vk_child_enabled(CH); g++) vk_child_step(CH);
+  r = hx_wait(P, REPROC_INFINITE);
+  check_status_result("wait(INFINITE) on the second handle", r, hx_last_api);
+  if (r != 7) vk_violation("C01", "status-exact", "h_c01|two-handles", "the second handle's wait returned %s, its child exits with 7", hx_errname(r));
+  hx_destroy(P);
+  struct stat st;
+  if (fstat(mine, &st) < 0) vk_violation("C05", "no-foreign-close", "h_c01|two-handles", "the caller's own descriptor was closed");
+  close(mine);
+  if (CH->reaps != 1) vk_violation("C01", "reaped-once", "h_c01|two-handles", "the second child was reaped %d times", CH->reaps);
+  else vk_hit(CL_REAPED_ONCE);
+  if (vk_bad_waits || vk_bad_kills) vk_violation("C06", "kill-wait-target", "h_c01|two-handles", "%d kill and %d waitpid call(s) off target", vk_bad_kills, vk_bad_waits);
+  if (vk_double_closes || vk_foreign_closes) vk_violation("C05", "no-double-close", "h_c01|two-handles", "%d double and %d foreign close(s)", vk_double_closes, vk_foreign_closes);
+}
+
 static void c01_run(int tier, long cfg)
 {
   struct ending en;
   int ops[4], nops = 0;
   long na = (long) NENDINGS * 3;
+  if (cfg >= na + (long) NREP * nhist(tier ? 4 : 3)) { c01_two_handles((int) (cfg - na - (long) NREP * nhist(tier ? 4 : 3))); return; }
   if (cfg < na) {
     en = ending_of((int) (cfg / 3));
     const int *h = canon[cfg % 3];
